@@ -23,6 +23,8 @@ def programs(ctx):
             out.append(fam2.c08_prog("p_r%02d" % j, "tuple", 1, some, repr=rp))
         else:
             out.append(fam2.c08_prog("p_r%02d" % j, kind, 2, some, repr=rp))
+    out.append(fam2.c08_prog("p_of0", "named", 3, some, other_first=("Debug", "#[debug(ignore)]")))
+    out.append(fam2.c08_prog("p_of1", "tuple", 2, some, other_first=("Debug", "#[debug(ignore)]")))
     # `Self` in bound(..) predicates and in field types: the impls for `&X` must still be about X
     text = ("pub trait Tr {}\npub struct Tag<W>(pub core::marker::PhantomData<W>, pub L);\n"
             "impl<W> core::ops::Neg for Tag<W> { type Output = Tag<W>; fn neg(self) -> Tag<W> { Tag(self.0, -self.1) } }\n"
